@@ -215,9 +215,23 @@ def pure_states(tier):
                         yield d_a, d_b, parts, ua, ub
 
 
+def big_pure_states(tier):
+    """Local dimensions 4x4, 4x5 and 5x5 with Schmidt vectors of full length: the values leave the ranges familiar from qubits (negativity up
+    to (d-1)/2 > 1, log-negativity and entropy up to log2 d > 2).  Added after seeded change C14-11, which clipped the negativity to [0, 1];
+    in the quick tier only (the thorough tier enumerates 4x4 completely)."""
+    if tier != "quick":
+        return
+    for d_a, d_b in ((4, 4), (4, 5), (5, 5)):
+        m = min(d_a, d_b)
+        for parts in ([1] * m, list(range(m, 0, -1)), [m] + [1] * (m - 1)):
+            for ua, ub in (("I", "I"), ("F", "g0")):
+                if ua in ukeys(d_a) and ub in ukeys(d_b):
+                    yield d_a, d_b, parts, ua, ub
+
+
 def pure_cases(tier, seed):
     """One case = (state, function, input form); the check runs EVERY dim form (and every k) for it."""
-    for d_a, d_b, parts, ua, ub in pure_states(tier):
+    for d_a, d_b, parts, ua, ub in itertools.chain(pure_states(tier), big_pure_states(tier)):
         base = {"dA": d_a, "dB": d_b, "p": parts, "ua": ua, "ub": ub}
         for fn in VALUE_FNS + ["schmidt_rank", "l1_norm_coherence"]:
             for form in FORMS:
